@@ -1300,6 +1300,23 @@ class Run:
                 if i1 < i0 or i0 < 0 or i1 > n_ + 1:
                     raise OOB(('O', oid), i1 if i1 > n_ else i0, n_, e.get('l'))
                 return ('STRV', tuple(buf[i0:i1]))
+            if oid not in self.strobjs and (name == 'operator=' or e.get('op') == '=') and len(e.get('a', [])) == 1:
+                # Array handle assignment: the receiver becomes another handle on the argument's elements (asl arrays share storage)
+                sv = self.val(e['a'][0])
+                src_ = sv[1] if isinstance(sv, tuple) and sv[0] == 'P' and isinstance(sv[1], tuple) and sv[1][0] == 'O' and sv[2] == 0 and sv[1] in self.bufs else None
+                if src_ is None or src_[1] in self.strobjs:
+                    raise Unsupported('`%s`' % pe(e))
+                ro = strip_lv(e['obj'])
+                while ro.get('k') in ('temp', 'paren', 'cast'):
+                    ro = strip_lv(ro['e'])
+                if ro.get('k') == 'mem' and _on_this(ro) and ro.get('f') in self.mems:
+                    self.mems[ro['f']] = ('P', src_, 0)
+                elif ro.get('k') == 'var':
+                    self.bufs[('O', ro['id'])] = self.bufs[src_]
+                    self.objlen[ro['id']] = self.objlen.get(src_[1], len(self.bufs[src_]))
+                else:
+                    raise Unsupported('`%s`' % pe(e))
+                return ('P', src_, 0)
             if oid not in self.strobjs and name == 'clone' and not e.get('a'):
                 # Array::clone(): a new array with its own copy of the elements
                 self._anon = getattr(self, '_anon', 0) + 1
